@@ -18,7 +18,7 @@ out = [f'''
 
 {len(rows)} changes to go-gorm/gorm were written by fresh sub-agents that saw only the text of one
 property and a scratch worktree (never /verif): {cnt[1][0]} in a first round (two per property), {cnt[2][0]} in a second
-(three per property), {cnt[3][0]} in a third, {cnt[4][0]} in a fourth, {cnt[5][0]} in a fifth, {cnt[6][0]} in a sixth, {cnt[7][0]} in a seventh, {cnt[8][0]} in an eighth (two per property each) and {cnt[9][0]} in a short ninth (one change each for twelve properties, in the last two hours of the time; a property
+(three per property), {cnt[3][0]} in a third, {cnt[4][0]} in a fourth, {cnt[5][0]} in a fifth, {cnt[6][0]} in a sixth, {cnt[7][0]} in a seventh, {cnt[8][0]} in an eighth (two per property each) and {cnt[9][0]} in a short ninth (one change per property, in the last two hours of the time; a property
 has fewer where an agent delivered only one change that passed the whole suite, where a delivered change
 could not be confirmed, or where a change was retired, see below). From round 2 on the agents were told which
 functions earlier rounds had changed and were asked for other mechanisms: error paths, second uses of a
